@@ -17,11 +17,14 @@ Anything else is a broken correspondence: bitwise differential runs aimed at tha
 """
 from __future__ import annotations
 
+import contextlib
 import itertools
 import os
+import pathlib
 import random as pyrandom
 import shutil
 import tempfile
+import time
 
 from . import core
 from . import api_common as A
@@ -49,7 +52,12 @@ LEAN = dict(
         "the MCMC-SAEM iteration itself is an uninterpreted `step` respecting the abstraction (C01/C03 are about that); the code as a deterministic function of the values it draws (`Draws.Code`) is an assumption of draw_program_determines_result",
     ],
     assumptions=["one interpreter, fixed PYTHONHASHSEED (set by ./check); CPU only",
-                 "the only runtime fact entering validation is whether the target folder is non-empty"],
+                 "the only runtime fact entering validation is whether the target folder is non-empty",
+                 "ambient torch default dtype: only the sampling algorithms (mcmc_saem, mean / mode posterior) document that they manage their "
+                 "working precision; scipy_minimize and simulate follow the ambient precision (observed: individual parameters differ by ~1e-3 "
+                 "under float64) and are not compared across it; a fit whose model is BUILT under an ambient float64 aborts (dtype mismatch)",
+                 "seeds outside [0, 2^32-1] are refused by numpy's seeding (ValueError), not by leaspy: outside the domain",
+                 "mixture_logistic is left out of the logged fits (its fit on the mock cohorts aborts with an unrelated dtype error)"],
 )
 
 GRID = [None, 1, 2, 3, 5]
@@ -231,6 +239,124 @@ def check_draw_programs(chk, book):
     chk.extra_cov["draw_programs"] = stats
 
 
+# ----------------------------------------------------------------------------------------- variants of the logged fit
+# A logging case may carry "v": a dictionary of departures from the one subject the grid was built on (logistic, 3 features, one
+# source, `Data`, keyword entry point, default samplers).  Absent keys = that subject.
+#   kind      model kind / cohort (VARIANT_KINDS)
+#   sw        plot_sourcewise=True                      nbp   nb_of_patients_to_plot (0, 1, more than the cohort)
+#   pk        how the path is given: "str" (absolute), "Path" (pathlib), "rel" (relative to the working directory)
+#   entry     "kwargs" | "settings2" (one AlgorithmSettings object + set_logs, used for two fits in a row) |
+#             "factory2" (one algorithm object from algorithm_factory, run on two fresh models)
+#   sampler   population sampler ("FastGibbs", "Metropolis-Hastings")          anneal   annealing on
+#   ro        random_order_variables=False              pb    progress_bar=True
+#   miss      a quarter of the observations missing     data  container handed to fit: "Data" | "df" | "Dataset" (one Dataset object
+#             shared by the logged fit and by a fit without logging that follows it)
+VARIANT_KINDS = {
+    "logistic31": ("logistic", "multi", dict(dimension=3, source_dimension=1)),
+    "logistic32": ("logistic", "multi", dict(dimension=3, source_dimension=2)),
+    "logistic21": ("logistic", "multi2", dict(dimension=2, source_dimension=1)),      # smallest multivariate shape: betas is 1 x 1
+    "nosrc": ("logistic", "multi", dict(dimension=3, source_dimension=0)),
+    "linear": ("linear", "multi", dict(dimension=3, source_dimension=1)),
+    "shared": ("shared_speed_logistic", "multi", dict(dimension=3, source_dimension=1)),
+    "uni": ("logistic", "uni", dict(dimension=1)),
+    "joint": ("joint", "joint", dict(dimension=4, source_dimension=1)),
+}
+_COHORTS = {}
+
+
+def variant_cohort(E, v):
+    """(dataframe, Data) of the variant's cohort; with `miss`, a fixed quarter of the cells is removed (visits left empty dropped)"""
+    which = VARIANT_KINDS[v.get("kind", "logistic31")][1]
+    key = (which, bool(v.get("miss")))
+    if key not in _COHORTS:
+        if which == "multi2":
+            full, _ = A.cohort("multi")
+            df = full[list(full.columns[:2])].copy()
+            data = E.Data.from_dataframe(df)
+        else:
+            df, data = A.cohort(which, n_ind=6 if which == "joint" else None)
+        if v.get("miss"):
+            gen = E.np.random.RandomState(20240911)          # a generator object of its own: the global ones are not touched
+            cols = A.feature_columns(df)
+            hole = gen.rand(len(df), len(cols)) < 0.25
+            df = df.copy()
+            df[cols] = df[cols].mask(hole)
+            df = df[~df[cols].isna().all(axis=1)]
+            data = E.Data.from_dataframe(df, data_type="joint") if which == "joint" else E.Data.from_dataframe(df)
+        _COHORTS[key] = (df, data)
+    return _COHORTS[key]
+
+
+def result_key(v):
+    """the part of a variant that may legitimately change the fitted values (everything else is logging / plumbing)"""
+    return tuple((k, v[k]) for k in ("kind", "sampler", "anneal", "ro", "miss") if v.get(k))
+
+
+def algo_kwargs(c):
+    v = c.get("v") or {}
+    kw = dict(n_iter=n_of(c), n_burn_in_iter=2, seed=3, progress_bar=bool(v.get("pb")), **sampler_kwargs(c.get("win")))
+    if v.get("sampler"):
+        kw["sampler_pop"] = v["sampler"]
+    if v.get("anneal"):
+        # (a new temperature at every iteration of the short fit, none of them a round number: 8.37 -> 6.896 -> … -> 1)
+        kw["annealing"] = dict(do_annealing=True, n_plateau=n_of(c), initial_temperature=8.37, n_iter_frac=1.0)
+    if v.get("ro"):
+        kw["random_order_variables"] = False
+    return kw
+
+
+def new_model(E, v):
+    kind, _, hyp = VARIANT_KINDS[(v or {}).get("kind", "logistic31")]
+    return E.model_factory(kind, **hyp)
+
+
+def fit_variant(E, c, log_kw, data, shared=None):
+    """The fit(s) of one case through the entry point of its variant; returns the list of fitted models (one, or two for the
+    entry points that use one settings / algorithm object twice).  `data`: the default Data object of the grid, replaced by the
+    variant's cohort / container when a variant is present.  `shared`: dictionary holding the Dataset object a case shares."""
+    v = c.get("v") or {}
+    kw = algo_kwargs(c)
+    if v:
+        df, data = variant_cohort(E, v)
+        if v.get("data") == "df":
+            data = df.copy()
+        elif v.get("data") == "Dataset":
+            from leaspy.io.data import Dataset
+            if shared is not None and "dataset" in shared:
+                data = shared["dataset"]
+            else:
+                data = Dataset(data)
+                if shared is not None:
+                    shared["dataset"] = data
+    entry = v.get("entry", "kwargs")
+    if entry == "kwargs":
+        m = new_model(E, v)
+        m.fit(data, "mcmc_saem", **kw, **log_kw)
+        return [m]
+    from leaspy.algo import AlgorithmSettings, algorithm_factory
+    st = AlgorithmSettings("mcmc_saem", **kw)
+    if log_kw:
+        st.set_logs(**log_kw)
+    out = []
+    if entry == "settings2":
+        for _ in range(2):
+            m = new_model(E, v)
+            m.fit(data, algorithm_settings=st)
+            out.append(m)
+        return out
+    if entry == "factory2":
+        from leaspy.io.data import Dataset
+        algo = algorithm_factory(st)
+        ds = data if isinstance(data, Dataset) else Dataset(E.Data.from_dataframe(data) if isinstance(data, E.pd.DataFrame) else data)
+        for _ in range(2):
+            m = new_model(E, v)
+            m.initialize(ds)
+            algo.run(m, ds)
+            out.append(m)
+        return out
+    raise ValueError(entry)
+
+
 # ----------------------------------------------------------------------------------------- part A
 def log_case_json(c):
     return {"part": "logging", **c}
@@ -242,14 +368,20 @@ def log_kwargs(c, work):
                     ("pp", "plot_patient_periodicity")):
         if c[k] is not None or c.get("explicit_none"):
             kw[name] = c[k]
+    v = c.get("v") or {}
     if c["path"]:
         p = os.path.join(work, "logs")
-        kw["path"] = p
+        # (the working directory is `work`: a relative path designates the same folder)
+        kw["path"] = {"str": p, "Path": pathlib.Path(p), "rel": "logs"}[v.get("pk", "str")]
         if c["dne"]:
             os.makedirs(os.path.join(p, "plots"), exist_ok=True)
             open(os.path.join(p, "plots", "old.txt"), "w").write("x")
     if c["ow"]:
         kw["overwrite_logs_folder"] = True
+    if v.get("sw"):
+        kw["plot_sourcewise"] = True
+    if v.get("nbp") is not None:
+        kw["nb_of_patients_to_plot"] = v["nbp"]
     return kw
 
 
@@ -262,20 +394,25 @@ def sampler_kwargs(win):
     return {"sampler_ind_params": dict(common), "sampler_pop_params": {"random_order_dimension": True, **common}}
 
 
-def plain_fit_digest(E, data, c, n, tmp, win=None):
-    """unrecorded seeded fit with logging request c (None = no logging), n iterations: digest or None when it raises"""
+def plain_fit_digest(E, data, c, n, tmp, win=None, like=None):
+    """unrecorded seeded fit with logging request c (None = no logging), n iterations: digest or None when it raises.
+    `like`: the case whose variant (model kind, samplers, cohort ...) the fit takes when c is None"""
     work = tempfile.mkdtemp(prefix="srch_", dir=tmp)
     cwd = os.getcwd()
     os.chdir(work)
     try:
-        m = E.model_factory("logistic", dimension=3, source_dimension=1)
+        src = c if c else (like or {})
+        cc = dict(path=False, print=None, save=None, plot=None, pp=None, ow=False, dne=False, n=n, win=win)
+        if src.get("v"):
+            cc["v"] = {k: src["v"][k] for k in ("kind", "sampler", "anneal", "ro", "miss") if src["v"].get(k)} if not c else dict(src["v"])
+        if c:
+            cc.update({k: c[k] for k in CASE_KEYS})
         try:
             with core.quiet():
-                m.fit(data, "mcmc_saem", n_iter=n, n_burn_in_iter=2, seed=3, progress_bar=False, **(log_kwargs(c, work) if c else {}),
-                      **sampler_kwargs(win))
+                ms = fit_variant(E, cc, log_kwargs(cc, work) if c else {}, data)
         except Exception:  # noqa
             return None
-        return (params_digest(m), full_digest(m))
+        return (params_digest(ms[0]), full_digest(ms[0]))
     finally:
         os.chdir(cwd)
         shutil.rmtree(work, ignore_errors=True)
@@ -286,7 +423,7 @@ def logging_search(E, data, c, tmp):
     only shows in the next one)"""
     def search(answer, rec):
         for n in (N_ITER + 1, 2 * N_ITER + 3, 3 * N_ITER + 4):
-            base = plain_fit_digest(E, data, None, n, tmp, c.get("win"))
+            base = plain_fit_digest(E, data, None, n, tmp, c.get("win"), like=c)
             got = plain_fit_digest(E, data, c, n, tmp, c.get("win"))
             if base is not None and got is not None and got != base:
                 return ({**log_case_json(c), "n": n},
@@ -299,33 +436,50 @@ def n_of(c):
     return c.get("n") or N_ITER
 
 
+def f100_region(c, err, fired_plot):
+    """F100: joint model, a convergence plot requested (with its save) and not source-wise: the first plot aborts the fit with a
+    TypeError raised while the title of the `zeta` panel is built"""
+    v = c.get("v") or {}
+    return (v.get("kind") == "joint" and not v.get("sw") and isinstance(err, TypeError) and "NoneType" in str(err) and fired_plot)
+
+
 def run_logging_case(chk, E, c, data, baselines, tmp, book=None):
-    """c: dict(path, print, save, plot, pp, ow, dne[, n]). Returns the implementation's canonical answer."""
+    """c: dict(path, print, save, plot, pp, ow, dne[, n, win, v]). Returns the implementation's canonical answer
+    (None: the run stopped inside the region of a listed finding, nothing to compare with the model)."""
     work = tempfile.mkdtemp(prefix="run_", dir=tmp)
     cwd = os.getcwd()
     os.chdir(work)            # a save periodicity without path writes to ./_outputs
     n_iter = n_of(c)
     win = c.get("win")
-    baseline = baselines(n_iter, win)
+    v = c.get("v") or {}
+    baseline = baselines(n_iter, win, v)
+    shared = {}
     try:
         kw = log_kwargs(c, work)
-        m = E.model_factory("logistic", dimension=3, source_dimension=1)
+        ms = []
         with Recorder(E) as rec, D.DrawRecorder(3) as dr:
             try:
                 with core.quiet():
-                    m.fit(data, "mcmc_saem", n_iter=n_iter, n_burn_in_iter=2, seed=3, progress_bar=False, **kw, **sampler_kwargs(win))
+                    if v.get("entry") in ("settings2", "factory2"):
+                        # (one object used twice: the second use follows below, outside the recorders)
+                        ms = first_use(E, c, kw, data, shared)
+                    else:
+                        ms = fit_variant(E, c, kw, data, shared)
                 err = None
             except Exception as e:  # noqa
                 err = e
+        m = ms[0] if ms else None
         cj = log_case_json(c)
+        subject = f"fit logistic (logging grid) n_iter={n_iter} window={win or 25}" + (f" {dict(result_key(v))}" if result_key(v) else "")
         if err is None and book is not None:
-            book.add(f"fit logistic (logging grid) n_iter={n_iter} window={win or 25}", "logging " + " ".join(f"{k}={c[k]}" for k in ("path", "print", "save", "plot", "pp")),
-                     cj, dr, logging_search(E, data, c, tmp))
+            book.add(subject, "logging " + " ".join(f"{k}={c[k]}" for k in ("path", "print", "save", "plot", "pp"))
+                     + (f" {v}" if v else ""), cj, dr, logging_search(E, data, c, tmp))
         # ---- the property's own predicate -------------------------------------------------------------
-        def eff(v):
-            return v if (isinstance(v, int) and v >= 1) else None
+        def eff(v_):
+            return v_ if (isinstance(v_, int) and v_ >= 1) else None
         pl, sv = eff(c["plot"]), eff(c["save"])
-        all_default = not c["path"] and all(c[k] is None for k in ("print", "save", "plot", "pp")) and not c["ow"]
+        all_default = (not c["path"] and all(c[k] is None for k in ("print", "save", "plot", "pp")) and not c["ow"]
+                       and not v.get("sw") and v.get("nbp") in (None, 5))
         documented_refusal = (not all_default) and ((pl is not None and (sv is None or pl % sv != 0))
                                                     or (c["path"] and c["dne"] and not c["ow"]))
         if err is not None:
@@ -335,9 +489,13 @@ def run_logging_case(chk, E, c, data, baselines, tmp, book=None):
             else:
                 no_root = not c["path"] and sv is None
                 fid = "F6" if (isinstance(err, AttributeError) and "path_output" in str(err) and no_root) else None
+                if f100_region(c, err, any(l == "C" for _, l in rec.events)):
+                    fid = "F100"
                 chk.impl_failure(cj, f"logging options aborted the fit at iteration {getattr(rec, 'cur', 0)}: {type(err).__name__}: {str(err)[:100]}",
                                  finding=fid)
                 ans = f"err:attribute@{getattr(rec, 'cur', 0)}" if isinstance(err, AttributeError) else ec
+                if fid == "F100":
+                    ans = None
             return ans
         if documented_refusal:
             chk.impl_failure(cj, "a logging configuration the documentation refuses (plot without / not a multiple of save, or non-empty folder) was accepted")
@@ -358,15 +516,40 @@ def run_logging_case(chk, E, c, data, baselines, tmp, book=None):
             base = os.path.join(work, "logs" if c["path"] else "_outputs")
             n_s = sum("S" in a for a in acts)
             csvs = [f for f in os.listdir(os.path.join(base, "parameter_convergence")) if f.endswith(".csv")]
-            if n_s and not csvs:
+            tracked = bool(getattr(m, "tracked_variables", True))      # (a model that tracks no variable has nothing to save)
+            if n_s and not csvs and tracked:
                 chk.impl_failure(cj, "save actions fired but no csv file exists")
             for f in csvs[:3]:
+                if f.startswith("sourcewise_"):
+                    continue                                        # (rewritten by each source-wise convergence plot)
                 rows = open(os.path.join(base, "parameter_convergence", f)).read().strip().splitlines()
                 if len(rows) != n_s:
                     chk.impl_failure(cj, f"{f}: {len(rows)} rows for {n_s} save actions")
                     break
-            if any("C" in a for a in acts) and not os.path.exists(os.path.join(base, "plots", "convergence_parameters.pdf")):
+            if any("C" in a for a in acts) and csvs and not os.path.exists(os.path.join(base, "plots", "convergence_parameters.pdf")):
                 chk.impl_failure(cj, "convergence plot action fired but no pdf exists")
+            n_t = sum("T" in a for a in acts)
+            pdir = os.path.join(base, "plots", "patients")
+            n_p = len([f for f in os.listdir(pdir) if f.startswith("plot_patients_")]) if os.path.isdir(pdir) else 0
+            if n_p != n_t:
+                chk.impl_failure(cj, f"{n_t} patient-plot actions fired, {n_p} files written")
+        # ---- second use of the same settings / algorithm / Dataset object (outside the recorders) ------------------------
+        if v.get("entry") in ("settings2", "factory2") or v.get("data") == "Dataset":
+            try:
+                with core.quiet():
+                    again = second_use(E, c, kw, data, shared)
+            except Exception as e:  # noqa
+                # F102: the second fit appends to the csv files of the first one (the non-empty-folder check is made once, by
+                # set_logs); repeated iteration numbers abort the source-wise convergence plot
+                fid = "F102" if (v.get("entry") in ("settings2", "factory2") and v.get("sw") and pl is not None and root
+                                 and isinstance(e, ValueError) and "duplicate labels" in str(e)) else None
+                chk.impl_failure(cj, f"second use of the same object raised {type(e).__name__}: {str(e)[:100]}", finding=fid)
+                again = None
+            if again is not None and (params_digest(again) != baseline["params"] or full_digest(again) != baseline["full"]):
+                what = {"settings2": "a second fit with the same AlgorithmSettings object (logging on)",
+                        "factory2": "a second run of the same algorithm object (logging on) on a fresh model"}.get(
+                    v.get("entry"), "a fit without logging on the Dataset object the logged fit had used")
+                chk.impl_failure(cj, f"{what} differs bitwise from the run without logging")
         mgr = int(rec.calls > 0)
         return f"ok mgr={mgr} root={int(root)} acts={fmt_list(acts, sep=';')}"
     finally:
@@ -374,11 +557,48 @@ def run_logging_case(chk, E, c, data, baselines, tmp, book=None):
         shutil.rmtree(work, ignore_errors=True)
 
 
+def first_use(E, c, kw, data, shared):
+    """settings2 / factory2: the settings (and algorithm) object is built and used once; kept in `shared` for the second use"""
+    from leaspy.algo import AlgorithmSettings, algorithm_factory
+    from leaspy.io.data import Dataset
+    v = c["v"]
+    _, dat = variant_cohort(E, v)
+    st = AlgorithmSettings("mcmc_saem", **algo_kwargs(c))
+    if kw:
+        st.set_logs(**kw)
+    shared["settings"] = st
+    m = new_model(E, v)
+    if v["entry"] == "settings2":
+        shared["input"] = dat
+        m.fit(dat, algorithm_settings=st)
+    else:
+        shared["algo"] = algorithm_factory(st)
+        shared["input"] = Dataset(dat)
+        m.initialize(shared["input"])
+        shared["algo"].run(m, shared["input"])
+    return [m]
+
+
+def second_use(E, c, kw, data, shared):
+    v = c["v"]
+    m = new_model(E, v)
+    if v.get("entry") == "settings2":
+        m.fit(shared["input"], algorithm_settings=shared["settings"])
+    elif v.get("entry") == "factory2":
+        m.initialize(shared["input"])
+        shared["algo"].run(m, shared["input"])
+    else:
+        m.fit(shared["dataset"], "mcmc_saem", **algo_kwargs(dict(c, v={k: x for k, x in v.items() if k != "pb"})))
+    return m
+
+
 def lean_line(c):
     def f(v):
         return "none" if v is None else str(v)
+    v = c.get("v") or {}
+    other = int(bool(v.get("sw")) or v.get("nbp") not in (None, 5))      # plot_sourcewise / nb_of_patients_to_plot away from their defaults
     return (f"log path={int(c['path'])} print={f(c['print'])} save={f(c['save'])} plot={f(c['plot'])} pp={f(c['pp'])} "
-            f"ow={int(c['ow'])} other=0 dne={int(c['dne'])} n={n_of(c)}")
+            f"ow={int(c['ow'])} other={other} dne={int(c['dne'])} n={n_of(c)}")
 
 
 def logging_cases(chk):
@@ -404,7 +624,8 @@ def logging_cases(chk):
         dict(path=False, print=None, save=None, plot=None, pp=None, ow=False, dne=False),
         # every logging action at every iteration of a longer fit, and every action at iteration 7 only: the recorded draw
         # programs then contain each action at iteration numbers the 6-iteration grid never reaches
-        dict(path=True, print=1, save=1, plot=1, pp=1, ow=False, dne=False, n=8),
+        # (quick tier: the convergence plot — one second each — at every second iteration; iteration 7 is in the next case)
+        dict(path=True, print=1, save=1, plot=1 if chk.tier == "thorough" else 2, pp=1, ow=False, dne=False, n=8),
         dict(path=True, print=7, save=7, plot=7, pp=7, ow=False, dne=False, n=8),
         # console logging across an adaptation window of the samplers (every 25 iterations): what printing reads must not be
         # what the next adaptation uses
@@ -417,7 +638,8 @@ def logging_cases(chk):
     if chk.tier == "quick":
         cheap = [c for c in full if plots(c) == 0]
         costly = [c for c in full if plots(c) > 0]
-        sel = rng.sample(cheap, 34) + rng.sample(costly, 5)
+        # (30 + 4 since the variants below take their share of the quick budget; the thorough tier samples 380)
+        sel = rng.sample(cheap, 30) + rng.sample(costly, 4)
         sel = [dict(c, win=3) if i % 3 == 0 else c for i, c in enumerate(sel)]
     else:
         cheap = [c for c in full if plots(c) == 0]
@@ -427,34 +649,101 @@ def logging_cases(chk):
     return extra + sel
 
 
+def variant_cases(chk):
+    """logged fits away from the subject of the grid: other model kinds (the convergence plots have model-specific branches),
+    source-wise plots, number of patients plotted, path given as pathlib.Path / relative, other entry points and containers,
+    other samplers / annealing under logging, missing observations under the patient plots"""
+    rng = chk.rng
+
+    def mk(path=True, pr=None, sv=None, pl=None, pp=None, n=None, win=None, **v):
+        c = dict(path=path, print=pr, save=sv, plot=pl, pp=pp, ow=False, dne=False)
+        if n:
+            c["n"] = n
+        if win:
+            c["win"] = win
+        c["v"] = {k: x for k, x in v.items() if x not in (None, False)}
+        return c
+    must = [
+        mk(pr=3, sv=3, pl=6, kind="joint"),                                  # convergence plot of the joint model (F100)
+        mk(pr=1, sv=2, pl=6, kind="logistic32", sw=True, pk="Path", anneal=True),   # source-wise mixing matrix, two sources; annealed
+        mk(pr=1, pp=2, miss=True, data="Dataset", nbp=3),                    # patient plots (3 of 5) over missing observations; Dataset reused
+        mk(pr=1, sv=2, win=3, sampler="FastGibbs", ro=True),
+        mk(pr=1, sv=2, win=3, sampler="Metropolis-Hastings", pb=True),
+        mk(pr=2, sv=2, entry="settings2", pk="rel"),
+    ]
+    pool = [
+        mk(sv=3, pl=6, pp=6, kind="joint", sw=True),                         # joint model, source-wise (zeta)
+        mk(pr=2, sv=2, pp=3, kind="joint"),
+        mk(pr=1, sv=1, pp=3, kind="uni", nbp=50, pk="rel"),
+        mk(pp=3, nbp=0),
+        mk(pr=2, sv=1, pp=3, kind="logistic21", pk="Path"),                  # every tracked 1 x 1 variable goes through the csv writer
+        mk(path=False, nbp=2, sampler="FastGibbs"),                          # nothing but another number of patients: a manager without folder
+        mk(pp=2, nbp=1, data="df"),
+        mk(pr=1, sv=1, anneal=True, pb=True, pk="Path"),
+        mk(pr=1, sv=3, pp=3, entry="factory2", win=3),
+        mk(pr=2, sv=1, pp=2, kind="shared"),
+        mk(pr=2, sv=2, pp=4, kind="linear", ro=True),
+        mk(path=False, sv=2, pl=6, kind="nosrc", sw=True),
+        mk(pr=1, sv=1, pp=1, kind="joint", miss=True, nbp=2, win=2),
+        mk(pr=3, sv=3, kind="logistic32", sampler="FastGibbs", anneal=True, win=2, entry="settings2"),
+        mk(sv=1, pl=3, pp=3, kind="uni", sw=True, data="Dataset"),
+        mk(pr=1, pp=1, kind="linear", miss=True, data="Dataset", nbp=1),
+    ]
+    if chk.tier == "quick":
+        return must + rng.sample(pool, 1)
+    extra = []
+    kinds = list(VARIANT_KINDS)
+    for _ in range(14):
+        kind = rng.choice(kinds)
+        sv = rng.choice([None, 1, 2, 3])
+        pl = rng.choice([None, None, 1, 2, 3]) if sv else None
+        if pl is not None:
+            pl = sv * max(1, pl // sv) if pl % sv else pl
+        c = mk(path=rng.random() < 0.8, pr=rng.choice([None, 1, 2, 5]), sv=sv, pl=pl, pp=rng.choice([None, 1, 2, 3]),
+               win=rng.choice([None, 2, 3]), kind=kind, sw=rng.random() < 0.4, nbp=rng.choice([None, 0, 1, 3, 50]),
+               pk=rng.choice(["str", "Path", "rel"]), entry=rng.choice(["kwargs", "kwargs", "settings2", "factory2"]),
+               sampler=rng.choice([None, "FastGibbs", "Metropolis-Hastings"]), anneal=rng.random() < 0.3, ro=rng.random() < 0.2,
+               pb=rng.random() < 0.2, miss=kind != "joint" and rng.random() < 0.4,
+               data=rng.choice(["Data", "Dataset"] if kind == "joint" else ["Data", "df", "Dataset"]))
+        if c["v"].get("entry") in ("settings2", "factory2"):
+            c["v"].pop("data", None)
+        extra.append(c)
+    return must + pool + extra
+
+
 def make_baselines(chk, E, data, tmp, book=None):
-    """reference fits without logging, one per number of iterations: first unrecorded (the digests every logging case is compared
-    with), then once more with the draw recorder on (its program is the reference of the subject; same digests required)"""
+    """reference fits without logging, one per (number of iterations, adaptation window, result-relevant part of the variant):
+    first unrecorded (the digests every logging case is compared with), then once more with the draw recorder on (its program is
+    the reference of the subject; same digests required).  Always through the keyword entry point, on a `Data` object."""
     cache = {}
 
-    def get(n, win=None):
-        key = (n, win)
+    def get(n, win=None, v=None):
+        rk = result_key(v or {})
+        key = (n, win, rk)
         if key in cache:
             return cache[key]
         work = tempfile.mkdtemp(prefix="base_", dir=tmp)
         cwd = os.getcwd()
         os.chdir(work)
         try:
-            m = E.model_factory("logistic", dimension=3, source_dimension=1)
+            cc = dict(path=False, print=None, save=None, plot=None, pp=None, ow=False, dne=False, n=n, win=win)
+            if rk:
+                cc["v"] = dict(rk)
             with core.quiet():
-                m.fit(data, "mcmc_saem", n_iter=n, n_burn_in_iter=2, seed=3, progress_bar=False, **sampler_kwargs(win))
+                m = fit_variant(E, cc, {}, data)[0]
             cache[key] = {"params": params_digest(m), "full": full_digest(m)}
-            m2 = E.model_factory("logistic", dimension=3, source_dimension=1)
             with D.DrawRecorder(3) as dr:
                 with core.quiet():
-                    m2.fit(data, "mcmc_saem", n_iter=n, n_burn_in_iter=2, seed=3, progress_bar=False, **sampler_kwargs(win))
+                    m2 = fit_variant(E, cc, {}, data)[0]
             cj = {"part": "logging", "path": False, "print": None, "save": None, "plot": None, "pp": None, "ow": False, "dne": False, "n": n}
             if win:
                 cj["win"] = win
+            if rk:
+                cj["v"] = dict(rk)
             if params_digest(m2) != cache[key]["params"] or full_digest(m2) != cache[key]["full"]:
                 chk.impl_failure(cj, "the same seeded fit without logging, repeated (this time with the draw recorder on), differs bitwise from the first run")
             if book is not None:
-                book.add(f"fit logistic (logging grid) n_iter={n} window={win or 25}", "no logging", cj, dr, None)
+                book.add(f"fit logistic (logging grid) n_iter={n} window={win or 25}" + (f" {dict(rk)}" if rk else ""), "no logging", cj, dr, None)
         finally:
             os.chdir(cwd)
             shutil.rmtree(work, ignore_errors=True)
@@ -471,6 +760,8 @@ def clean_case(c):
         d["n"] = c["n"]
     if c.get("win"):
         d["win"] = c["win"]
+    if c.get("v"):
+        d["v"] = {k: x for k, x in c["v"].items() if x not in (None, False)}
     return d
 
 
@@ -479,7 +770,7 @@ def part_a(chk, E, tmp, book=None):
     baselines = make_baselines(chk, E, data, tmp, book)
     baselines(N_ITER)
     cases = [c["case"] for c in core.load_corpus(PROP) if c.get("case", {}).get("part") == "logging"]
-    cases = [clean_case(c) for c in cases] + logging_cases(chk)
+    cases = [clean_case(c) for c in cases] + logging_cases(chk) + [clean_case(c) for c in variant_cases(chk)]
     answers = []
     for c in cases:
         ans = run_logging_case(chk, E, c, data, baselines, tmp, book)
@@ -487,11 +778,13 @@ def part_a(chk, E, tmp, book=None):
         nontriv = c["path"] or any(c[k] is not None for k in ("print", "save", "plot", "pp"))
         chk.case(("log", tuple(sorted(c.items()))), nontrivial=nontriv,
                  sample=log_case_json(c) if len(chk.samples) < 3 and c["plot"] else None,
-                 tags={"part": "logging", "outcome": ans.split(" ")[0].split("@")[0], "path": c["path"],
+                 tags={"part": "logging", "outcome": (ans or "known-finding").split(" ")[0].split("@")[0], "path": c["path"],
                        "has_plot": c["plot"] is not None, "adaptation_window": c.get("win") or 25})
+        for k, x in (c.get("v") or {}).items():
+            chk.tag("logging_variant", f"{k}={x}")
     out = chk.model([lean_line(c) for c in cases])
     for c, a, b in zip(cases, answers, out):
-        if a != b:
+        if a is not None and a != b:
             chk.disagree(log_case_json(c), a, b, "logging outcome / actions fired per iteration")
 
 
@@ -538,7 +831,74 @@ def unrelated_calls(E, rng, model_path, data):
         m.estimate({i: [70.0, 75.5] for i in list(ips._indices)[:2]}, ips)
 
 
-HISTORIES = ["repeat", "python", "numpy", "torch", "all", "reseed", "unrelated-fit", "unrelated-calls"]
+def logged_fit(E, rng, tmp):
+    """a fit of another shape (4 features, 2 sources … or the joint model) with the logging actions on, shortened adaptation
+    windows, another population sampler: whatever the output manager, matplotlib, the samplers or a class-level table keep
+    from it must not reach a later seeded run"""
+    work = tempfile.mkdtemp(prefix="hist_", dir=tmp)
+    cwd = os.getcwd()
+    os.chdir(work)
+    try:
+        kind = rng.choice(["logistic32", "uni", "joint", "linear"])
+        v = dict(kind=kind, sampler=rng.choice(["FastGibbs", "Metropolis-Hastings", None]), sw=rng.random() < 0.5)
+        c = dict(path=True, print=1, save=1, plot=None, pp=rng.choice([2, 3]), ow=False, dne=False, n=3, win=2, v=v)
+        with core.quiet():
+            fit_variant(E, c, log_kwargs(c, work), None)
+    finally:
+        os.chdir(cwd)
+        shutil.rmtree(work, ignore_errors=True)
+
+
+def other_shape_fit(E, rng):
+    """the same model kind as the subjects, other dimensions (4 features, 3 sources), no logging"""
+    _, data = A.cohort("tiny")
+    m = E.model_factory("logistic", dimension=4, source_dimension=rng.choice([1, 3]))
+    with core.quiet():
+        m.fit(data, "mcmc_saem", n_iter=2, seed=rng.randrange(100), progress_bar=False, **sampler_kwargs(2))
+        # … and used: whatever a personalisation / simulation keeps per model NAME, per variable name or per class now holds the
+        # values of this other model
+        m.personalize(data, "scipy_minimize", seed=rng.randrange(100), progress_bar=False,
+                      custom_scipy_minimize_params={"method": "BFGS", "options": {"gtol": 1e-1, "maxiter": 1}})
+        m.personalize(data, "mean_posterior", seed=rng.randrange(100), progress_bar=False, n_iter=2)
+        m.simulate(algorithm="simulate", seed=rng.randrange(100), features=list(m.features),
+                   visit_parameters={"patient_number": 2, "visit_type": "random", "first_visit_mean": 0.0, "first_visit_std": 0.4,
+                                     "time_follow_up_mean": 2, "time_follow_up_std": 0.5, "distance_visit_mean": 1.0,
+                                     "distance_visit_std": 0.2, "min_spacing_between_visits": 1})
+
+
+class process_state:
+    """global settings other code may have changed: print options of torch / numpy / pandas, floating-point error handling of
+    numpy, the warnings filter (restored on exit: they are not this check's to keep)"""
+
+    def __init__(self, E):
+        self.E = E
+
+    def __enter__(self):
+        import warnings
+        E = self.E
+        self.np_print = E.np.get_printoptions()
+        self.np_err = E.np.geterr()
+        self.filters = list(warnings.filters)
+        E.np.set_printoptions(precision=2, suppress=True, threshold=3)
+        E.np.seterr(all="warn")
+        E.torch.set_printoptions(precision=1, sci_mode=True, threshold=2)
+        E.pd.set_option("display.precision", 1)
+        warnings.simplefilter("always")
+        return self
+
+    def __exit__(self, *exc):
+        import warnings
+        E = self.E
+        E.np.set_printoptions(**self.np_print)
+        E.np.seterr(**self.np_err)
+        E.torch.set_printoptions(profile="default")
+        E.pd.reset_option("display.precision")
+        warnings.filters[:] = self.filters
+        return False
+
+
+HISTORIES = ["repeat", "python", "numpy", "torch", "all", "reseed", "unrelated-fit", "unrelated-calls", "logged-fit", "other-shape-fit",
+             "process-state"]
 
 
 GEN_HISTORY = {"0": "python", "1": "numpy", "2": "torch"}
@@ -586,6 +946,44 @@ def part_b(chk, E, tmp, book=None):
     # a documented option of every model: initial parameters drawn at random (the seed of the run must cover them, F32)
     subjects.append((f"fit logistic random-initialization seed={seed}",
                      fit_thunk("logistic", multi, seed, dimension=3, source_dimension=2, initialization_method="random"), seed))
+    # the same fit through the other public entry points, each with ONE object made now and used by every later run: an
+    # AlgorithmSettings object, an algorithm object (algorithm_factory), a settings file, a Dataset; the result must be the one of
+    # the keyword entry point (`same_as`)
+    from leaspy.algo import AlgorithmSettings, algorithm_factory
+    from leaspy.io.data import Dataset
+    first_fit = subjects[0][0]
+    with core.quiet():
+        st_fit = AlgorithmSettings("mcmc_saem", n_iter=rng_iter, n_burn_in_iter=3, seed=seed, progress_bar=False)
+        # (short adaptation windows: what the samplers of the algorithm object keep from one run shows in the next)
+        algo_fit = algorithm_factory(AlgorithmSettings("mcmc_saem", n_iter=rng_iter, n_burn_in_iter=3, seed=seed, progress_bar=False,
+                                                       **sampler_kwargs(3)))
+        ds_fit = Dataset(multi)
+        st_path = os.path.join(tmp, "fit_settings.json")
+        st_fit.save(st_path)
+
+    def entry_thunk(how):
+        def f():
+            m = E.model_factory("logistic", dimension=3, source_dimension=2)
+            with core.quiet():
+                if how == "settings":
+                    m.fit(multi, algorithm_settings=st_fit)
+                elif how == "file":
+                    m.fit(multi_df.copy(), algorithm_settings_path=st_path)
+                else:
+                    m.initialize(ds_fit)
+                    algo_fit.run(m, ds_fit)
+            return full_digest(m)
+        return f
+    multi_df, _ = A.cohort("multi")
+    same_as = {}
+    for how, label in (("settings", "one reused AlgorithmSettings object"), ("file", "settings file, DataFrame input"),
+                       ("algo", "one reused algorithm object and Dataset")):
+        if how == "file" and chk.tier == "quick":
+            continue            # (quick tier: the two entry points that keep an object between the runs)
+        name = f"fit logistic [{label}] seed={seed}"
+        subjects.append((name, entry_thunk(how), seed))
+        if how != "algo":
+            same_as[name] = first_fit
     if chk.tier == "thorough":
         subjects.append((f"fit shared_speed seed={seed}", fit_thunk("shared_speed_logistic", multi, seed, dimension=3, source_dimension=1), seed))
         subjects.append((f"fit joint seed={seed}", fit_thunk("joint", joint, seed, dimension=4, source_dimension=1), seed))
@@ -600,14 +998,17 @@ def part_b(chk, E, tmp, book=None):
         def f():
             with core.quiet():
                 m = E.BaseModel.load(p)
-                ips = m.personalize(multi, algo, seed=seed, progress_bar=False, **kw)
+                ips = m.personalize(multi, algo, seed=seed, **{"progress_bar": False, **kw})
             return A.ip_digest(ips)
         return f
 
-    def sim_thunk(seed):
+    def sim_thunk(seed, table=False):
         vp = {"patient_number": 4, "visit_type": "random", "first_visit_mean": 0.0, "first_visit_std": 0.4,
               "time_follow_up_mean": 3, "time_follow_up_std": 0.5, "distance_visit_mean": 1.0,
               "distance_visit_std": 0.2, "min_spacing_between_visits": 1}
+        if table:
+            vp = {"visit_type": "dataframe",
+                  "df_visits": E.pd.DataFrame({"ID": [30, 7, 30, 12, 7], "TIME": [71.5, 68.0, 72.25, 80.0, 69.5]})}
 
         def f():
             with core.quiet():
@@ -619,11 +1020,36 @@ def part_b(chk, E, tmp, book=None):
     subjects.append((f"personalize mean_posterior seed={seed}", perso_thunk("mean_posterior", seed, n_iter=15), seed))
     subjects.append((f"personalize mode_posterior seed={seed}", perso_thunk("mode_posterior", seed, n_iter=15), seed))
     subjects.append((f"personalize scipy_minimize seed={seed}", perso_thunk("scipy_minimize", seed), seed))
+    # the logging keywords and the progress bar are accepted by every call (only fits act on them): same result, no abort
+    name = f"personalize mean_posterior [logging keywords, progress bar] seed={seed}"
+    subjects.append((name, perso_thunk("mean_posterior", seed, n_iter=15, progress_bar=True, path=os.path.join(tmp, "perso_logs"),
+                                       print_periodicity=1, save_periodicity=2, plot_periodicity=2, overwrite_logs_folder=True), seed))
+    same_as[name] = f"personalize mean_posterior seed={seed}"
     # the same request served by a pool of worker processes (workers are reused between calls: their generators are part of
     # the process history)
     subjects.append((f"personalize scipy_minimize n_jobs=2 seed={seed}", perso_thunk("scipy_minimize", seed, n_jobs=2), seed))
+    # sampling personalisation with its options away from the defaults (annealing, short adaptation window), one settings object
+    # and ONE model object for all the runs: what an earlier personalisation left in either must not matter
+    with core.quiet():
+        st_mode = AlgorithmSettings("mode_posterior", seed=seed, progress_bar=False, n_iter=14,
+                                    annealing=dict(do_annealing=True, n_plateau=2, initial_temperature=4.0),
+                                    sampler_ind_params=dict(acceptation_history_length=3))
+        one_model = E.BaseModel.load(p)
+
+    def reused_perso():
+        with core.quiet():
+            return A.ip_digest(one_model.personalize(multi, algorithm_settings=st_mode))
+    subjects.append((f"personalize mode_posterior annealed [one model and settings object] seed={seed}", reused_perso, seed))
     subjects.append((f"simulate seed={seed}", sim_thunk(seed), seed))
     subjects.append(("simulate seed=0", sim_thunk(0), 0))          # 0 is a seed like any other
+    subjects.append(("simulate seed=4294967295", sim_thunk(2 ** 32 - 1), 2 ** 32 - 1))     # the largest seed numpy accepts
+    subjects.append((f"simulate [visit table] seed={seed}", sim_thunk(seed, table=True), seed))
+    # the seed given as a numpy integer / as text (both documented as converted with int())
+    forms = [("numpy.int64", E.np.int64(seed)), ("str", str(seed))]
+    for form, val in (forms if chk.tier == "thorough" else [rng.choice(forms)]):
+        name = f"simulate [seed given as {form}] seed={seed}"
+        subjects.append((name, sim_thunk(val), seed))
+        same_as[name] = f"simulate seed={seed}"
     # reference results first, all of them, before any other activity took place in this interpreter
     # (an activity that leaves something behind would otherwise already be part of a later subject's reference)
     # (they stay unrecorded: every later run is recorded, so each bitwise comparison also says that recording changes nothing)
@@ -634,25 +1060,49 @@ def part_b(chk, E, tmp, book=None):
         except Exception as e:
             chk.impl_failure({"part": "history", "subject": name, "history": "first run"},
                              f"{name}: raised {type(e).__name__}: {str(e)[:100]}")
+    for name, other in same_as.items():
+        if name in refs and other in refs and refs[name] != refs[other]:
+            chk.impl_failure({"part": "history", "subject": name, "history": "first run"},
+                             f"{name}: differs bitwise from '{other}' (same settings, same seed, another entry point / form of the seed)")
     for name, thunk, run_seed in subjects:
         if name not in refs:
             continue
         ref = refs[name]
         search = history_search(E, rng, name, thunk, ref, p, multi)
-        hists = HISTORIES if chk.tier == "thorough" or name.startswith(("fit logistic", "simulate")) else rng.sample(HISTORIES, 4)
-        if name.startswith("personalize") and "unrelated-calls" not in hists:
+        if name.startswith(("fit logistic seed", f"simulate seed={seed}")) or (chk.tier == "thorough" and "[" not in name):
+            hists = HISTORIES
+        elif chk.tier == "thorough":
+            hists = rng.sample(HISTORIES, 5)        # (entry points / forms of the seed: five of the eleven histories)
+        elif name.startswith(("fit logistic random", "simulate seed=0")):
+            hists = HISTORIES[:8]                   # (quick tier: the three histories added last go to one fit and one simulation)
+        elif name in same_as or "[" in name or name.startswith("simulate"):
+            hists = rng.sample(HISTORIES, 2)       # (entry points / forms added later: a sample; every history over the seeds)
+        else:
+            hists = rng.sample(HISTORIES, 4)
+        if name.startswith("personalize") and "[" not in name and "unrelated-calls" not in hists:
             hists = list(hists) + ["unrelated-calls"]
         for h in hists:
             cj = {"part": "history", "subject": name, "history": h}
+            t_act = time.time()
             try:
+                ctx = process_state(E) if h == "process-state" else contextlib.nullcontext()
                 if h == "unrelated-fit":
                     unrelated_fit(E, rng)
                 elif h == "unrelated-calls":
                     unrelated_calls(E, rng, p, multi)
-                elif h != "repeat":
+                elif h == "logged-fit":
+                    logged_fit(E, rng, tmp)
+                elif h == "other-shape-fit":
+                    other_shape_fit(E, rng)
+                elif h not in ("repeat", "process-state"):
                     consume(E, h, rng)
-                with D.DrawRecorder(run_seed) as dr:
+                spent = chk.extra_cov.setdefault("seconds_per_history_activity", {})
+                spent[h] = round(spent.get(h, 0.0) + time.time() - t_act, 1)
+                t_act = time.time()
+                with ctx, D.DrawRecorder(run_seed) as dr:
                     got = thunk()
+                spent = chk.extra_cov.setdefault("seconds_per_subject", {})
+                spent[name.split(" seed")[0]] = round(spent.get(name.split(" seed")[0], 0.0) + time.time() - t_act, 1)
             except Exception as e:
                 chk.impl_failure(cj, f"{name} after '{h}': raised {type(e).__name__}: {str(e)[:100]}")
                 continue
@@ -679,20 +1129,28 @@ def ambient_dtype_part(chk, E, tmp, book=None):
         base.fit(uni, "mcmc_saem", n_iter=10, n_burn_in_iter=4, seed=2, progress_bar=False)
     p = os.path.join(tmp, "uni.json")
     base.save(p)
-    for algo, kw in (("mean_posterior", dict(n_iter=12)), ("mode_posterior", dict(n_iter=12))):
-        name = f"personalize {algo} (univariate, objects built beforehand) seed={seed}"
+
+    def perso(algo, **kw):
+        return lambda m: A.ip_digest(m.personalize(uni, algo, seed=seed, progress_bar=False, **kw))
+
+    # (scipy_minimize and simulate are left out on purpose: only the sampling algorithms document that they manage their working
+    # precision / device (`AlgorithmSettings.device`); under an ambient float64 the optimiser of scipy_minimize follows another
+    # rounding path (individual parameters differ by ~1e-3) and simulate computes the noiseless values in double precision for a
+    # model without sources — observed on the unchanged tree, a matter of precision, not of seeding)
+    for name, call in ((f"personalize mean_posterior (univariate, objects built beforehand) seed={seed}", perso("mean_posterior", n_iter=12)),
+                       (f"personalize mode_posterior (univariate, objects built beforehand) seed={seed}", perso("mode_posterior", n_iter=12))):
         cj = {"part": "history", "subject": name, "history": "ambient-default-dtype-float64"}
         try:
             with core.quiet():
                 m0, m1, m2 = E.BaseModel.load(p), E.BaseModel.load(p), E.BaseModel.load(p)
-                ref = A.ip_digest(m0.personalize(uni, algo, seed=seed, progress_bar=False, **kw))
+                ref = call(m0)
                 with D.DrawRecorder(seed) as dr1:
-                    again = A.ip_digest(m1.personalize(uni, algo, seed=seed, progress_bar=False, **kw))
+                    again = call(m1)
                 old = torch.get_default_dtype()
                 torch.set_default_dtype(torch.float64)
                 try:
                     with D.DrawRecorder(seed) as dr2:
-                        got = A.ip_digest(m2.personalize(uni, algo, seed=seed, progress_bar=False, **kw))
+                        got = call(m2)
                 finally:
                     torch.set_default_dtype(old)
         except Exception as e:  # noqa
@@ -783,6 +1241,46 @@ def probe_findings(chk, E, tmp):
             chk.note("finding F6 no longer reproduces (print_periodicity without path runs to the end)")
         except AttributeError as e:
             chk.known_finding_reproduces("F6", f"fit(..., print_periodicity=5) without path: AttributeError: {e}")
+        except Exception as e:  # noqa
+            chk.note(f"F6 probe ended otherwise: {type(e).__name__}: {str(e)[:80]}")
+    finally:
+        os.chdir(cwd)
+    # F100: convergence plot of the joint model
+    work = tempfile.mkdtemp(prefix="f100_", dir=tmp)
+    os.chdir(work)
+    try:
+        c = dict(path=True, print=None, save=3, plot=6, pp=None, ow=False, dne=False, v={"kind": "joint"})
+        try:
+            with core.quiet():
+                fit_variant(E, c, log_kwargs(c, work), None)
+            chk.note("finding F100 no longer reproduces (joint model: the convergence plot is written, the fit runs to the end)")
+        except TypeError as e:
+            chk.known_finding_reproduces("F100", "joint model, fit(..., path=<dir>, save_periodicity=3, plot_periodicity=6): the first convergence "
+                                                 f"plot aborts the fit with TypeError: {e}")
+        except Exception as e:  # noqa  (another abort of that fit is not F100: the logging cases report it)
+            chk.note(f"F100 probe ended otherwise: {type(e).__name__}: {str(e)[:80]}")
+    finally:
+        os.chdir(cwd)
+    # F102: one settings object with source-wise plots, two fits
+    work = tempfile.mkdtemp(prefix="f102_", dir=tmp)
+    os.chdir(work)
+    try:
+        from leaspy.algo import AlgorithmSettings
+        _, data = A.cohort("multi")
+        try:
+            with core.quiet():
+                st = AlgorithmSettings("mcmc_saem", n_iter=2, n_burn_in_iter=1, seed=3, progress_bar=False)
+                st.set_logs(path=os.path.join(work, "logs"), save_periodicity=2, plot_periodicity=2, plot_sourcewise=True)
+                E.model_factory("logistic", dimension=3, source_dimension=1).fit(data, algorithm_settings=st)
+            try:
+                with core.quiet():
+                    E.model_factory("logistic", dimension=3, source_dimension=1).fit(data, algorithm_settings=st)
+                chk.note("finding F102 no longer reproduces (a second fit with the same settings object and source-wise plots runs to the end)")
+            except ValueError as e:
+                chk.known_finding_reproduces("F102", "one AlgorithmSettings object with set_logs(path, save_periodicity=2, plot_periodicity=2, "
+                                                     f"plot_sourcewise=True), second fit: ValueError: {str(e)[:80]}")
+        except Exception as e:  # noqa
+            chk.note(f"F102 probe could not run: {type(e).__name__}: {str(e)[:80]}")
     finally:
         os.chdir(cwd)
 
@@ -793,20 +1291,37 @@ def run(chk: core.Check):
                 "(periodicities in {None,1,2,3,5} for print/save/plot/patient-plot x path, sampled from the 1250-point grid, plus ignored "
                 "values 0/-1, non-empty folder with/without overwrite; a third of the cases — and their baselines — with the samplers' adaptation "
                 "window shortened from 25 to 2 / 3 iterations so that adaptations fire between logging actions; two 8-iteration and one "
-                "27-iteration fit); non-trivial when any logging option is set. history: one case = "
-                "one seeded run (fit / mean / mode / scipy personalisation / simulate) repeated after a given prior activity; non-trivial "
+                "27-iteration fit); variants of that subject (key `v`): other model kinds (joint, univariate, linear, shared speed, "
+                "no / two sources, two features), source-wise plots, number of patients plotted 0 / 1 / more than the cohort, path as pathlib.Path / "
+                "relative, FastGibbs / Metropolis-Hastings population sampler, annealing, fixed variable order, progress bar, a quarter of "
+                "the observations missing, DataFrame / Data / Dataset input, one AlgorithmSettings or algorithm object used twice "
+                "(6 fixed + 1 sampled in the quick tier, all + 14 random combinations in the thorough tier); "
+                "non-trivial when any logging option is set. history: one case = "
+                "one seeded run (fit by keywords / reused settings object / reused algorithm object and Dataset / settings file; mean / "
+                "mode / scipy personalisation, also pooled, also annealed on one reused model and settings object; simulate with a random "
+                "design or a visit table, seeds 0, 2^32-1, numpy integer, text) repeated after a given prior activity (draws, re-seeding, "
+                "unrelated fit / calls, a logged fit of another kind, a fit of another shape, changed print options / error handling / "
+                "warnings filter); non-trivial "
                 "when the activity is not a plain repeat. draw programs: every one of these runs except the reference runs is recorded "
                 "(draws_c11.py) and analysed by the driver (one `draws` line each).")
     tmp = tempfile.mkdtemp(prefix="c11_")
     book = DrawBook()
     try:
-        part_a(chk, E, tmp, book)
-        part_b(chk, E, tmp, book)
-        ambient_dtype_part(chk, E, tmp, book)
+        timing = chk.extra_cov.setdefault("seconds_per_part", {})
+
+        def timed(name, f, *a):
+            t0 = time.time()
+            try:
+                return f(*a)
+            finally:
+                timing[name] = round(timing.get(name, 0.0) + time.time() - t0, 1)
+        timed("logging", part_a, chk, E, tmp, book)
+        timed("history", part_b, chk, E, tmp, book)
+        timed("ambient_dtype", ambient_dtype_part, chk, E, tmp, book)
         if chk.tier == "thorough":
-            forced_logging_probe(chk, E, tmp, book)
-        check_draw_programs(chk, book)
-        probe_findings(chk, E, tmp)
+            timed("forced_logging", forced_logging_probe, chk, E, tmp, book)
+        timed("draw_programs", check_draw_programs, chk, book)
+        timed("findings", probe_findings, chk, E, tmp)
     finally:
         shutil.rmtree(tmp, ignore_errors=True)
 
@@ -824,7 +1339,7 @@ def replay(chk: core.Check, payload):
             ans = run_logging_case(chk, E, c, data, baselines, tmp, book)
             chk.case(("log", tuple(sorted(c.items()))), sample=case)
             out = chk.model([lean_line(c)])
-            if out[0] != ans:
+            if ans is not None and out[0] != ans:
                 chk.disagree(case, ans, out[0], "logging outcome / actions fired per iteration")
         else:
             # history cases depend on the whole sequence of prior activity: re-run part B
